@@ -2846,7 +2846,11 @@ impl<'a> Visitor<'a, '_, Error> for JSONValidator<'a> {
           }
         } else if is_ident_time_data_type(self.state.cddl, ident) {
           if let Some(n) = n.as_i64() {
-            if let chrono::LocalResult::None = Utc.timestamp_millis_opt(n * 1000) {
+            // seconds beyond the millisecond range of i64 are no timestamp
+            if let None | Some(chrono::LocalResult::None) = n
+              .checked_mul(1000)
+              .map(|millis| Utc.timestamp_millis_opt(millis))
+            {
               self.add_error(format!(
                 "expected time data type, invalid UNIX timestamp {}",
                 n,
